@@ -299,6 +299,20 @@ def install_election(ex):
                 holds = (v > q) if ex.instance == 'real' else (v >= q)
                 ex.col.add('PRE', ['C04'], caller, 'defeat@%d:no-quota' % ex.C.site_anchor_n(caller, 'defeat-noquota', line),
                            'a candidate holding a quota is never excluded', C.assumptions(st), z3.Not(holds))
+        if caller.startswith('droop.rules.qpq.') and name in ('defeat', 'elect'):
+            # QPQ 2.5/2.6: the candidate excluded has a smallest quotient among the hopefuls, the one elected a largest
+            msg = env.get('msg')
+            lit_ = msg.lit if isinstance(msg, SStr) else None
+            if lit_ in ('Defeat low quotient', 'Elect high quotient'):
+                C.heap_array(st, CAND, 'quotient', 'opt:val')
+                qarr, qn = st.heap[(CAND, 'quotient')], st.heap[(CAND, 'quotient?')]
+                mine = z3.Select(qarr, me.t)
+                cmp_ = (lambda a, b: a <= b) if name == 'defeat' else (lambda a, b: a >= b)
+                ex.col.add('PRE', ['C07'], caller, '%s@%d:extreme-quotient' % (name, ex.C.site_anchor_n(caller, name + '-quotient', line)),
+                           'QPQ: the candidate %s has a %s quotient among the hopeful candidates' % (
+                               'excluded' if name == 'defeat' else 'elected', 'smallest' if name == 'defeat' else 'largest'),
+                           C.assumptions(st), z3.And(z3.Not(z3.Select(qn, me.t)),
+                                                     z3.ForAll([y], z3.Implies(z3.And(hop(y), z3.Not(z3.Select(qn, y))), cmp_(mine, z3.Select(qarr, y))))))
         if name == 'unpend' and ex.instance != 'guarded':
             msg = env.get('msg')
             lit_ = msg.lit if isinstance(msg, SStr) else None
@@ -392,7 +406,7 @@ def install_election(ex):
                 ghost_get(st, 'hooked')
                 st.ghost['g:hooked'] = SInt(a.t)
             return None
-        if q in ('droop.candidate.Candidate.defeat', 'droop.candidate.Candidate.unpend'):
+        if q in ('droop.candidate.Candidate.defeat', 'droop.candidate.Candidate.unpend', 'droop.candidate.Candidate.elect'):
             site_obligations(info, env, st, fr, node)
             return None
         if not q.startswith('droop.candidates.Candidates.'):
